@@ -536,9 +536,9 @@ def gen_actor_case(rng, name, props, logger=False):
                 ops.append({"op": "kill", "oid": oid, "code": "k%d" % oid})
             elif c < 0.76:
                 rid = ids.next("rid")
-                kind = rng.choice(["plain", "plain", "to", "someto", "somedo"])
+                kind = rng.choice(["plain", "plain", "to", "someto", "somedo", "toprep"])
                 op = {"op": "mkret", "rid": rid, "kind": kind}
-                if kind in ("to", "someto"):
+                if kind in ("to", "someto", "toprep"):
                     op["aid"] = rng.choice(actors)
                 ops.append(op)
                 rets.append(rid)
